@@ -418,7 +418,7 @@ def _sha(paths):
     import hashlib
     h = hashlib.sha256()
     for p in sorted(paths):
-        h.update(p.encode())
+        h.update(os.path.basename(p).encode())
         try:
             h.update(open(p, "rb").read())
         except OSError:
@@ -437,7 +437,7 @@ def prereq_c09(workdir):
     files += [os.path.join(ROOT, f) for f in ("harness/core/src/c09.rs", "harness/core/src/lib.rs", "harness/common/geo.rs",
                                               "harness/common/shim.rs", "tools/tabledump/src/main.rs", "lib/vdriver.py")]
     key = _sha(files)
-    cdir = os.path.join(ROOT, "work", "prereq")
+    cdir = os.environ.get("VERIF_PREREQ_CACHE") or os.path.join(ROOT, "work", "prereq")
     os.makedirs(cdir, exist_ok=True)
     cf = os.path.join(cdir, "C09-%s.json" % key)
     if os.path.exists(cf):
